@@ -126,10 +126,16 @@ def audit(prop_id: str, modules=None):
             f.write(f'#print axioms {n}\n')
     rc, out = sh(['lake', 'env', 'lean', path], cwd=LEAN_DIR, timeout=1200)
     report = {}
-    for m in re.finditer(r"'([^']+)' depends on axioms: \[([^\]]*)\]", out.replace('\n ', ' ')):
-        report[m.group(1)] = [a.strip() for a in m.group(2).split(',') if a.strip()]
-    for m in re.finditer(r"'([^']+)' does not depend on any axioms", out):
-        report[m.group(1)] = []
+    flat = out.replace('\n ', ' ')
+    for line in flat.splitlines():
+        line = line.strip()
+        m = re.match(r"^'(.+)' depends on axioms: \[([^\]]*)\]", line)
+        if m:
+            report[m.group(1)] = [a.strip() for a in m.group(2).split(',') if a.strip()]
+            continue
+        m = re.match(r"^'(.+)' does not depend on any axioms", line)
+        if m:
+            report[m.group(1)] = []
     bad = {}
     ok = []
     for n in names:
